@@ -118,3 +118,29 @@ def std_encode(table, name, args, big, ps, nested=None):
                 return None
             out += b
     return bytes([first]) + out
+
+
+# ---- what an assembler (GNU as / LLVM MC) emits for the CFI directives that take raw, unfactored operands.  Directives whose
+# operands the assembler factors by the CIE's alignment (.cfi_offset, .cfi_val_offset, .cfi_def_cfa_offset, .cfi_rel_offset,
+# .cfi_adjust_cfa_offset ...) are deliberately absent: a DWARF instruction object can only be handed over through them when the
+# hand-over undoes the factoring, which the library does not do -- it uses .cfi_escape for those.
+def asm_directive(name, operands):
+    """bytes for (directive, operands), or None when the directive is not one whose operands go into the encoding unchanged"""
+    ops = list(operands)
+    if name == ".cfi_def_cfa" and len(ops) == 2:
+        return b"\x0c" + uleb(ops[0]) + uleb(ops[1])
+    if name == ".cfi_def_cfa_register" and len(ops) == 1:
+        return b"\x0d" + uleb(ops[0])
+    if name == ".cfi_undefined" and len(ops) == 1:
+        return b"\x07" + uleb(ops[0])
+    if name == ".cfi_same_value" and len(ops) == 1:
+        return b"\x08" + uleb(ops[0])
+    if name == ".cfi_register" and len(ops) == 2:
+        return b"\x09" + uleb(ops[0]) + uleb(ops[1])
+    if name == ".cfi_restore" and len(ops) == 1:
+        return bytes([0xC0 | ops[0]]) if 0 <= ops[0] < 64 else b"\x06" + uleb(ops[0])
+    if name == ".cfi_remember_state" and not ops:
+        return b"\x0a"
+    if name == ".cfi_restore_state" and not ops:
+        return b"\x0b"
+    return None
